@@ -100,24 +100,21 @@ class FunctionCall:
 
     def _check_type_param(self, params: Dict[str, inspect.Parameter]) -> None:
         arg_index = 1 if self.func.is_instance_method else 0
+        takes_positional = (inspect.Parameter.POSITIONAL_ONLY, inspect.Parameter.POSITIONAL_OR_KEYWORD)
 
         for key, param in params.items():
             self._already_checked_kwargs.append(key)
             self._assert_param_has_type_annotation(param=param)
 
-            if param.default is inspect.Signature.empty:
-                if key in self.kwargs:
-                    actual_value = self.kwargs[key]
-                elif not self.func.should_have_kwargs and arg_index < len(self.args):
-                    actual_value = self.args[arg_index]
-                    arg_index += 1
-                else:
-                    raise PedanticTypeCheckException(f'{self.func.err}Parameter "{key}" is unfilled.')
+            if key in self.kwargs:
+                actual_value = self.kwargs[key]
+            elif param.kind in takes_positional and not self.func.should_have_kwargs and arg_index < len(self.args):
+                actual_value = self.args[arg_index]  # what Python binds to the parameter, whether or not it has a default
+                arg_index += 1
+            elif param.default is not inspect.Signature.empty:
+                actual_value = param.default
             else:
-                if key in self.kwargs:
-                    actual_value = self.kwargs[key]
-                else:
-                    actual_value = param.default
+                raise PedanticTypeCheckException(f'{self.func.err}Parameter "{key}" is unfilled.')
 
             assert_value_matches_type(
                 value=actual_value,
